@@ -1134,6 +1134,8 @@ class X:
             for b in (lo, hi):
                 if b is not None and not isinstance(b, VInt):
                     raise Unsupported('non-int slice bound')
+            if hasattr(obj, 'pyslice'):
+                return obj.pyslice(self, lo, hi)
             if isinstance(obj, (VBytes, VStr)):
                 return type(obj)(py_slice(obj.t, lo.t if lo else None, hi.t if hi else None))
             if isinstance(obj, VSeq):
